@@ -77,10 +77,15 @@ def gen_stream(rnd, n, kind):
     if kind == "repeated":
         pool = [Q(rnd.randrange(-9, 9), 2) for _ in range(3)]
         return [rnd.choice(pool) for _ in range(n)]
+    if kind == "with-zeros":      # exact zeros sprinkled between non-zero values (the filler value of MultiValueTracker)
+        return [Q(0) if rnd.random() < 0.3 else Q(rnd.randrange(-40, 41), rnd.choice([1, 2, 5])) for _ in range(n)]
+    if kind == "feedback":        # every third value is replaced in the loop by the smoothing tracker's OWN current value
+        return [Q(rnd.randrange(-40, 41), rnd.choice([1, 2, 4])) for _ in range(n)]
     raise ValueError(kind)
 
 
-KINDS = ["random", "ints", "negative", "constant", "zeros", "monotone", "alternating", "huge-tiny", "fractions", "repeated", "mean-insert"]
+KINDS = ["random", "ints", "negative", "constant", "zeros", "monotone", "alternating", "huge-tiny", "fractions", "repeated", "mean-insert",
+         "with-zeros", "feedback"]
 
 
 def fr(v):
@@ -89,7 +94,7 @@ def fr(v):
 
 def main(run):
     from ixai.utils.tracker import WelfordTracker, ExponentialSmoothingTracker
-    run.rule = ("streams of exact rationals (11 value patterns (incl. values equal to the running mean) x lengths 0..300, thorough to 4096; plus streams of ~10^4 (thorough ~10^5) updates on ONE tracker object checked at every 2^k-1,2^k,2^k+1 and 1000s) pushed through the shipped "
+    run.rule = ("streams of exact rationals (13 value patterns (incl. values equal to the running mean or to the tracker's own current value, exact zeros between non-zero values) x lengths 0..300, thorough to 4096; plus streams of ~10^4 (thorough ~10^5) updates on ONE tracker object checked at every 2^k-1,2^k,2^k+1 and 1000s) pushed through the shipped "
                 "WelfordTracker / ExponentialSmoothingTracker update code; after every update mean, population variance, N and "
                 "sum alpha(1-alpha)^(n-i)v_i compared with == against closed forms, std against sqrt; linearity, min<=mean<=max "
                 "and convex-hull clauses asserted on the exact runs; float / NumPy-scalar streams compared with the exact result "
@@ -142,6 +147,17 @@ def main(run):
                         run.violation("empty-stream", f"fresh trackers report N={w.N},{e.N} value {e.get()!r}", {"case": tag})
                     continue
                 for i, v in enumerate(vals):
+                    if rep == 1 and n >= 4 and i == n // 2:
+                        # checkpoint: the stream continues on a deep copy / pickle round trip; the originals are fed other values from now on
+                        import copy
+                        import pickle
+                        w_old, e_old = w, e
+                        w, e = (copy.deepcopy(w), pickle.loads(pickle.dumps(e))) if (n + len(kind)) % 2 else (pickle.loads(pickle.dumps(w)), copy.deepcopy(e))
+                        w_old.update(Q(10 ** 9)); e_old.update(Q(-10 ** 9))
+                        run.count("checkpointed-streams")
+                    if kind == "feedback" and i % 3 == 2:
+                        v = vals[i] = Q(fr(e.get()) if i % 2 else fr(w.mean))      # the observation EQUALS the current estimate
+                        fv[i] = fr(v)
                     if i % 7 == 3:
                         w.update(value_i=v)          # documented parameter name, passed by keyword
                     else:
